@@ -550,6 +550,50 @@ func c09Shared(c *lib.Ctx) {
 			readShare(d, "after scale-in and forced GC")
 		}
 		c.Feat("scale_in_merges", 1)
+		// The successors take their first own checkpoint and the job tells them (in a seeded order) to retain only
+		// that one: the inherited checkpoint, which carries one WAL per predecessor, is dropped. A WAL of a shared
+		// predecessor may already have been removed by the sibling; once everybody has dropped, none of the
+		// inherited WALs may be left.
+		var inherited []string
+		for _, d := range old {
+			for cid, ws := range walsOf(e.gfs, d.listURI) {
+				if cid == id {
+					inherited = append(inherited, ws...)
+				}
+			}
+		}
+		id2 := nextID
+		nextID++
+		for _, d := range live {
+			e.logOp("%s.checkpoint(%d)", d.name, id2)
+			h, err := d.db.Checkpoint(id2)()
+			if err != nil {
+				c.Fail("checkpoint-error", wit(), "%s checkpoint %d: %v", d.name, id2, err)
+			}
+			d.listURI = h.URI
+		}
+		mon.check(fmt.Sprintf("after job checkpoint %d of the successors", id2), live, wit)
+		for _, d := range lib.Shuffled(r, live) {
+			e.logOp("%s.retain([%d])", d.name, id2)
+			if err := d.db.UpdateRetainedCheckpoints([]uint64{id2}); err != nil {
+				c.Fail("retain-error", wit(), "%s: UpdateRetainedCheckpoints([%d]): %v", d.name, id2, err)
+			}
+		}
+		// (judged once everybody has applied the update, like the retention updates above: a WAL shared by siblings
+		// is removed by the first one that drops the inherited checkpoint; the others list it until they drop it too)
+		mon.check("after the successors' retention update", live, wit)
+		for _, d := range live {
+			e.waitDB(d.db)
+		}
+		for _, w := range inherited {
+			if ex, _ := e.gfs.Exists(w); ex {
+				c.Fail("dropped-wal-not-removed", wit(), "every successor has dropped the checkpoint it was restored from (retain only %d), but WAL %s of that inherited checkpoint still exists", id2, w)
+			}
+			c.Feat("inherited_wals_checked", 1)
+		}
+		for _, d := range live {
+			readShare(d, "after the successors dropped the inherited checkpoints")
+		}
 	}
 	for _, d := range live {
 		e.waitDB(d.db)
